@@ -167,6 +167,93 @@ def work_gen(task):
     return ev
 
 
+def ar_archive(members):
+    """A System V ar archive (no symbol index) of (name, bytes) members."""
+    out = b"!<arch>\n"
+    for name, data in members:
+        hdr = (name + "/").ljust(16).encode() + b"0".ljust(12) + b"0".ljust(6) + b"0".ljust(6) + b"644".ljust(8) + str(len(data)).ljust(10).encode() + b"`\n"
+        assert len(hdr) == 60
+        out += hdr + data + (b"\n" if len(data) % 2 else b"")
+    return out
+
+
+def work_archives(task):
+    """A file with several symbol tables: an archive of objects.  Every entry of every member exactly once, each
+    member's entries in table order (the index restarts with every member; positions run on)."""
+    seed, start, count = task
+    ev = Evidence()
+    drv = Driver(timeout=120)
+    try:
+        for i in range(start, start + count):
+            rnd = random.Random((seed << 32) ^ (i * 2654435761 & 0xffffffff) ^ 0xA18)
+            mname = rnd.choice(["X86_64", "X86_64", "AARCH64", "ARM", "PPC64"])
+            bits, big = SHAPES[mname]
+            tables = [(gen_symbols(rnd) or [Sym()])[:rnd.choice([3, 8, 20, 60])] for _ in range(rnd.randint(2, 4))]     # (no empty tables)
+            members = [("m%d.o" % k, write_elf([(b".text", b"\0" * 64)], t, machine=EM[mname], bits=bits, big=big)) for k, t in enumerate(tables)]
+            data = ar_archive(members)
+            mask = (1 << bits) - 1 if bits == 32 else (1 << 64) - 1
+            try:
+                with TempElf(data) as path:
+                    h = drv.open(path)
+                    try:
+                        d = drv.run("symbol", "V%d" % h, limit=2000)
+                        w = drv.run("symbol (|S| [S name] [S value] [S size] [S label] [S binding] [S visibility] [S pos])", "V%d" % h, limit=2000, steps=10000000)
+                    finally:
+                        drv.req("vclose %d" % h)
+            except RuntimeError as e:
+                ev.inconc("archive not opened: " + str(e)[:40])
+                continue
+            except DriverCrash as e:
+                ev.violations.append({"property": PID, "elf_hex": data.hex()[:20000], "reason": "driver crashed on an archive: " + e.report[-2500:], "signature": "C18:ar-crash:%d" % i})
+                continue
+            except DriverTimeout:
+                ev.inconc("watchdog")
+                continue
+            ev.case(key=data, nontrivial=True)
+            ev.label("archive")
+            ev.label("archive-members:%d" % len(tables))
+            if "error" in d or "error" in w:
+                ev.violations.append({"property": PID, "elf_hex": data.hex()[:20000], "reason": "symbol on an archive failed: %r" % (d.get("error") or w.get("error")),
+                                      "signature": "C18:ar-error"})
+                continue
+            got = [(v[-1]["idx"], bytes.fromhex(v[-1]["name"]), int(v[-1]["st_value"]), int(v[-1]["st_size"]), v[-1]["st_info"], v[-1]["p"]) for v in d["res"]]
+            # members may be reported in any order; within a member the table order is fixed
+            want_members = [[(k, s.name, s.value & mask, s.size & mask, ((s.bind & 15) << 4) | (s.typ & 15)) for k, s in enumerate(t)] for t in tables]
+            why = None
+            pos_ok = [g[5] for g in got] == list(range(len(got)))
+            rest = [g[:5] for g in got]
+            remaining = list(want_members)
+            while rest and remaining:
+                m = next((t for t in remaining if rest[:len(t)] == t), None)
+                if m is None:
+                    break
+                rest = rest[len(m):]
+                remaining.remove(m)
+            if rest or remaining:
+                why = "`symbol` on an archive of %d members with %r entries yields %d entries that are not the members' tables one after the other (first unmatched: %r)" % (
+                    len(tables), [len(t) for t in tables], len(got), rest[:2])
+            elif not pos_ok:
+                why = "positions of the entries of an archive are not 0, 1, 2, ...: %r" % [g[5] for g in got][:12]
+            elif len(w["res"]) != len(got):
+                why = "the words see %d entries, `symbol` yields %d" % (len(w["res"]), len(got))
+            else:
+                for row, g in zip(w["res"], got):
+                    cols = row[-7:]
+                    nm = [bytes.fromhex(e["x"]) for e in cols[0]["e"]]
+                    nums = [[int(e["v"]) for e in c["e"]] for c in cols[1:]]
+                    if nm != [g[1]] or nums[0] != [g[2]] or nums[1] != [g[3]] or nums[2] != [g[4] & 15] or nums[3] != [g[4] >> 4]:
+                        why = "archive entry %r: words yield %r %r" % (g[:5], nm, nums[:4])
+                        break
+            if why:
+                ev.violations.append({"property": PID, "elf_hex": data.hex()[:20000], "recipe": {"seed": seed, "index": i, "kind": "archive"},
+                                      "reason": why, "signature": "C18:ar:" + why[:60]})
+            elif rnd.random() < 0.1:
+                ev.sample({"archive_members": [len(t) for t in tables], "machine": mname})
+    finally:
+        drv.kill()
+    return ev
+
+
 def work_cross(task):
     """Machine-specific codes of two machines never compare equal; common codes do."""
     ev = Evidence()
@@ -320,6 +407,8 @@ def main(tier, seed):
     per = max(10, n // 48)
     ev.merge(run_pool(work_gen, [(seed, s, min(per, n - s)) for s in range(0, n, per)]))
     ev.merge(work_cross(None))
+    na = 120 if tier == "quick" else 3000
+    ev.merge(run_pool(work_archives, [(seed, s_, min(10, na - s_)) for s_ in range(0, na, 10)]))
     samples = sorted(p for p in glob.glob("/repo/tests/*") if os.path.isfile(p) and open(p, "rb").read(4) == b"\x7fELF")
     samples += [p for p in ("/verif/build/bin/h_int", "/usr/bin/readelf", "/usr/lib/x86_64-linux-gnu/libelf.so.1") if os.path.exists(p)]
     ev.merge(run_pool(work_samples, [samples[i::8] for i in range(8)]))
@@ -330,6 +419,7 @@ def main(tier, seed):
                   health={"all machines generated": sum(1 for k in ev.labels if k.startswith("machine:")) >= 12,
                           "both classes and endiannesses": all(ev.labels.get("class:" + c, 0) > 0 for c in ("32LE", "32BE", "64LE", "64BE")),
                           "cross-machine pairs": ev.labels.get("cross-machine-pair", 0) >= 10,
+                          "archives": ev.labels.get("archive", 0) >= 50,
                           "samples": ev.labels.get("sample", 0) >= 8})
 
 
